@@ -272,8 +272,14 @@ int main(void)
 #ifndef ALT_HI
 #define ALT_HI NALT
 #endif
+#ifndef ALT_MOD           /* optional striding: only alternatives a with a % ALT_MOD == ALT_REM (mixes type sequences in every chunk) */
+#define ALT_MOD 1
+#define ALT_REM 0
+#endif
     int sel = IN_RANGE(ALT_LO, ALT_HI - 1);
+    VASSUME(sel % ALT_MOD == ALT_REM);
     for (int a = ALT_LO; a < ALT_HI; a++)
+        if (a % ALT_MOD != ALT_REM) continue; else
         if (sel == a) { scenario(alt[a][0], alt[a][1], alt[a][2], alt[a][3], alt[a][4]); return 0; }   /* the path ends here: no state leaks into the next alternative */
     return 0;
 }
